@@ -221,7 +221,12 @@ func (h *handler) Handle(ctx context.Context, header *protocol.RequestHeader, re
 		if h.traceKafka {
 			topicSummaries := make([]string, 0, len(meta.Topics))
 			for _, topic := range meta.Topics {
-				topicSummaries = append(topicSummaries, fmt.Sprintf("%s(error=%d partitions=%d)", *topic.Topic, topic.ErrorCode, len(topic.Partitions)))
+				// Entries answering an unknown topic id carry no name.
+				name := fmt.Sprintf("id:%x", topic.TopicID)
+				if topic.Topic != nil {
+					name = *topic.Topic
+				}
+				topicSummaries = append(topicSummaries, fmt.Sprintf("%s(error=%d partitions=%d)", name, topic.ErrorCode, len(topic.Partitions)))
 			}
 			brokerAddrs := make([]string, 0, len(meta.Brokers))
 			for _, b := range meta.Brokers {
